@@ -513,6 +513,8 @@ pub fn run(tier: Tier, seed: u64, replay: Option<&std::path::Path>) -> i32 {
     let mut prof_http = profile("C12");
     prof_http.access = Access::Http;
     prof_http.topics = crate::hist::TopicMode::HttpSafe;
+    // requests that must be refused at the boundary (bad TTLs, ids, contexts, options) and never stored
+    prof_http.w_bad = 15;
     let hist_test = |case: &HistCase| -> Result<CaseInfo, Fail> {
         let (mut info, fl) = run_history(case)?;
         info.nontrivial = fl.had_import || fl.had_reopen;
